@@ -5,6 +5,8 @@ CONSTANTS
   MaskByPosition = FALSE
   RawScriptFallback = FALSE
   MutClasses <- MutNone
+  PreOps <- PreNone
+  SkipIfSignedAddr = FALSE
 INVARIANTS SameSigners Sound
 ACTION_CONSTRAINT Edge
 CHECK_DEADLOCK FALSE
